@@ -72,6 +72,10 @@ def gcv_block(rep: Report, s: Smoother):
         okm = (gd.startswith("lt0[-1*gcv_temp[0] + ") or gd.startswith("le0[-1*gcv_temp[0] + ")) and yt[0][2][-1] == gd and yt[0][0].key() == z \
             and upd[0].rhs.key().startswith("tuple[") and upd[0].rhs.key().endswith(";elem[lambda_range]]")
     ob("R-ARGMIN", "the best score, its lambda and its curve are updated together under `score < best`", okm, det, upd[0].stmt if upd else "arg-min update")
+    leave = [e for e in sc.exits if e.kind in ("break", "continue", "return") and e.region is sweep[0].region]
+    ob("R-ARGMIN", "every candidate lambda is scored (no early exit from the sweep)", not leave,
+       f"`{norm_stmt(leave[0].stmt)}` under {list(leave[0].guards)[-1:]} leaves the sweep before all candidates are scored: a GCV curve with a hump hides the grid minimum" if leave else "",
+       leave[0].stmt if leave else f"{fn}: exits of the sweep loop")
     init = [d for d in sc.scalars.get("gcv_temp", []) if d.region.kind == "line"]
     ob("R-ARGMIN", "the running best starts above every finite score", len(init) == 1 and init[0].rhs.key() == "tuple[1000000000000000;0]",
        f"{[d.rhs.key() for d in init]}", init[0].stmt if init else "gcv_temp = [1e15, 0]")
